@@ -23,7 +23,9 @@ RULE = (
     "and many ids, e tags with extra items, p tags naming the victim, deletions of deletions; all arrival orders of "
     "(target, deletion) incl. deletion first and equal timestamps; GET /e/<id> of some targets before their deletion and "
     "REQ+GET of every removed event right after it) plus bursts: targets, a foreign event and the author's deletion "
-    "acknowledged back to back without a pause (same / other connection, amid load, LMDB write lock held elsewhere). Non-trivial = an accepted deletion that references "
+    "acknowledged back to back without a pause (same / other connection, amid load, LMDB write lock held elsewhere); a "
+    "deletion acknowledged right before an orderly close, judged after the re-open; two workers (storages) on one SQLite file, "
+    "the deletion accepted by one, the event looked at by the other before. Non-trivial = an accepted deletion that references "
     "at least one stored event (own or foreign). Distinct = distinct (backend, canonical history)."
 )
 ASSUMPTIONS = [
@@ -31,7 +33,7 @@ ASSUMPTIONS = [
     "LMDB backend over /verif/shim (judged after writer idle); SQL = SQLite",
 ]
 MIN_NONTRIVIAL = {"quick": 200, "thorough": 2000}
-REQUIRED_COUNTERS = ["clause.frame", "clause.must_remove", "clause.burst_must_remove", "served_checks", "served_checks_seen_before", "gets_before"]
+REQUIRED_COUNTERS = ["clause.frame", "clause.must_remove", "clause.burst_must_remove", "clause.restart_must_remove", "two_worker_deletions", "served_checks", "served_checks_seen_before", "gets_before"]
 SHARD_TIMEOUT = {"quick": 500, "thorough": 3000}
 
 
@@ -300,6 +302,131 @@ async def run_burst(backend, cases, counters):
     return viols, nontrivial
 
 
+async def run_restart(backend, counters, seed):
+    """the author's deletion is acknowledged, then the relay shuts down in an orderly way at once; after the
+    re-open the referenced older event is gone, the foreign one is still there"""
+    import shutil
+    from .. import env
+
+    r = random.Random(seed)
+    scratch = env.scratch("vf-c08-restart-")
+    viols, nontrivial = [], []
+    A, B = ref.key_from_seed("c08-burst-a"), ref.key_from_seed("c08-burst-b")
+    own = ref.make_event(A, kind=1, created_at=gen.T0 + 1, content="own %d" % seed)
+    F = ref.make_event(B, kind=1, created_at=gen.T0 + 1, content="foreign %d" % seed)
+    D = ref.make_event(A, kind=5, created_at=gen.T0 + 20, tags=[["e", own["id"]], ["e", F["id"]]], content="del %d" % seed)
+    rp = {"backend": backend, "restart": seed}
+    try:
+        rig = R.Rig(backend=backend, config={"analysis_delay": 0}, scratch_dir=scratch)
+        await rig.start()
+        try:
+            conn = rig.connect("b")
+            await conn.cmd(["EVENT", own])
+            await conn.cmd(["EVENT", F])
+            await rig.quiesce()
+            n0 = rig.rec.n
+            for i in range(r.choice([30, 60])):
+                conn.feed(["EVENT", ref.make_event(B, kind=1, created_at=gen.T0 + 2, tags=[["t", "l%d-%d" % (i, j)] for j in range(60)], content="load %d %d" % (seed, i))])
+            conn.feed(["EVENT", D])
+            await conn.processed(timeout=120)
+            oks = {f[1]: f[2] for _, f in R.ok_frames(conn, n0) if len(f) > 2}
+        finally:
+            await rig.close()
+        rig2 = R.Rig(backend=backend, config={"analysis_delay": 0}, scratch_dir=scratch)
+        await rig2.start(create_schema=False)
+        try:
+            counters["steps"] = counters.get("steps", 0) + 1
+            counters.setdefault("clause", {})["restart_must_remove"] = counters["clause"].get("restart_must_remove", 0) + 1
+            if oks.get(D["id"]) is True:
+                nontrivial.append(h([backend, "restart", seed]))
+                stored = dump.stored_events(dump.dump(rig2))
+                conn2 = rig2.connect("after")
+                ans = await qcore.run_req(rig2, conn2, [{"ids": [own["id"]]}])
+                status, _ = await http_get(rig2, own["id"])
+                counters["served_checks"] = counters.get("served_checks", 0) + 1
+                if own["id"] in stored or status == 200 or ans["events"]:
+                    viols.append({"key": "%s/own-not-deleted/after-orderly-restart" % backend,
+                                  "msg": "[%s] the author's deletion was acknowledged OK=true right before an orderly close; after re-opening the referenced event is %s (deletion event stored: %s)"
+                                         % (backend, ", ".join(w for w, c in (("in the store", own["id"] in stored), ("served by GET", status == 200), ("returned by REQ", bool(ans["events"]))) if c),
+                                            D["id"] in stored), "replay": rp})
+                if F["id"] not in stored:
+                    viols.append({"key": "%s/foreign-deleted/after-orderly-restart" % backend, "msg": "[%s] the foreign event is gone after the restart" % backend, "replay": rp})
+        finally:
+            await rig2.close()
+    finally:
+        shutil.rmtree(scratch, ignore_errors=True)
+    return viols, nontrivial
+
+
+async def run_two_workers(counters, seed):
+    """two workers (two storages) on one SQLite file: what worker 1 deletes, worker 2 does not serve any more -
+    also when worker 2 looked at the event before (as its notifier client does for every announced id)"""
+    viols, nontrivial = [], []
+    import falcon
+    import falcon.asgi
+    from falcon import testing
+    from nostr_relay import web
+
+    async def get(storage, eid):
+        res = web.ViewEventResource(storage)
+        resp = falcon.asgi.Response()
+        try:
+            await res.on_get(testing.create_asgi_req(path="/e/" + eid), resp, eid)
+        except falcon.HTTPNotFound:
+            return 404
+        return 200
+
+    rig = R.Rig(backend="sql", config={"analysis_delay": 0})
+    await rig.start()
+    st2 = None
+    try:
+        st2 = await rig.make_storage(create_schema=False)
+        A, B = ref.key_from_seed("c08-burst-a"), ref.key_from_seed("c08-burst-b")
+        w1, w2 = rig.connect("w1"), rig.connect("w2", storage=st2)
+        for i in range(6):
+            own = ref.make_event(A, kind=r_kind(i), created_at=gen.T0 + 1, tags=[["d", "tw%d-%d" % (seed, i)]], content="own %d %d" % (seed, i))
+            F = ref.make_event(B, kind=1, created_at=gen.T0 + 1, content="foreign %d %d" % (seed, i))
+            D = ref.make_event(A, kind=5, created_at=gen.T0 + 20, tags=[["e", own["id"]], ["e", F["id"]]], content="del %d %d" % (seed, i))
+            await w1.cmd(["EVENT", own])
+            await w1.cmd(["EVENT", F])
+            await rig.quiesce()
+            looked = i % 2 == 0
+            if looked:
+                await st2.get_event(own["id"])  # what NotifyClient does with every announced id
+                await get(st2, F["id"])
+            n0 = rig.rec.n
+            await (w1 if i % 3 else w2).cmd(["EVENT", D])
+            await rig.quiesce()
+            oks = [f for _, f in R.ok_frames(w1, n0)] + [f for _, f in R.ok_frames(w2, n0)]
+            if not oks or oks[-1][2] is not True:
+                continue
+            counters["two_worker_deletions"] = counters.get("two_worker_deletions", 0) + 1
+            counters["steps"] = counters.get("steps", 0) + 1
+            nontrivial.append(h(["sql", "two-workers", seed, i]))
+            rp = {"backend": "sql", "two_workers": seed}
+            for name, st, c in (("accepting worker" if i % 3 else "other worker", rig.storage, w1), ("other worker" if i % 3 else "accepting worker", st2, w2)):
+                status = await get(st, own["id"])
+                ans = await qcore.run_req(rig, c, [{"ids": [own["id"]]}])
+                if status == 200 or ans["events"]:
+                    viols.append({"key": "sql/deleted-still-served/%s/%s" % ("http" if status == 200 else "req", "other-worker" if name == "other worker" else "accepting-worker"),
+                                  "msg": "[sql, two workers on one database] after the author's accepted deletion the %s still serves event %s (GET %d, REQ %d events; looked at before: %s)"
+                                         % (name, own["id"][:12], status, len(ans["events"]), looked), "replay": rp})
+                if await get(st, F["id"]) != 200:
+                    viols.append({"key": "sql/foreign-deleted/two-workers", "msg": "[sql] the foreign event is no longer served by the %s" % name, "replay": rp})
+    finally:
+        if st2 is not None:
+            try:
+                await st2.close()
+            except Exception:
+                pass
+        await rig.close()
+    return viols, nontrivial
+
+
+def r_kind(i):
+    return [1, 7, 30000, 10002, 1, 4][i % 6]
+
+
 async def run_many(backend, histories, counters):
     viols, nontrivial = [], []
     for hs in histories:
@@ -317,6 +444,14 @@ def run_shard(spec):
     v2, nt2 = R.run(run_burst, spec["backend"], gen_burst(r, spec.get("bursts", 12)), counters)
     viols.extend(v2)
     nontrivial.extend(nt2)
+    for j in range(2):
+        v3, nt3 = R.run(run_restart, spec["backend"], counters, spec["case_seed"] * 10 + j)
+        viols.extend(v3)
+        nontrivial.extend(nt3)
+    if spec["backend"] == "sql":
+        v4, nt4 = R.run(run_two_workers, counters, spec["case_seed"])
+        viols.extend(v4)
+        nontrivial.extend(nt4)
     seen, out = {}, []
     for v in viols:
         seen[v["key"]] = seen.get(v["key"], 0) + 1
@@ -331,6 +466,12 @@ def run_shard(spec):
 
 def replay(rp, spec):
     counters = {}
+    if "restart" in rp:
+        v, nt = R.run(run_restart, rp["backend"], counters, rp["restart"])
+        return {"evaluations": 1, "nontrivial": nt, "counters": counters, "violations": v, "samples": [], "inconclusive": []}
+    if "two_workers" in rp:
+        v, nt = R.run(run_two_workers, counters, rp["two_workers"])
+        return {"evaluations": 1, "nontrivial": nt, "counters": counters, "violations": v, "samples": [], "inconclusive": []}
     if "burst" in rp:
         v, nt = R.run(run_burst, rp["backend"], [rp["burst"]], counters)
         return {"evaluations": 1, "nontrivial": nt, "counters": counters, "violations": v, "samples": [], "inconclusive": []}
